@@ -16,7 +16,7 @@ pub fn mon() -> Mon {
         run,
         finish,
         replay,
-        rule: "Random valid configurations: every n in 1..=16, every PCI/IANA format mix for n <= 8 (2^n) and random mixes above, random identifier (PCI sets with a non-zero high half) and numeric values. For each configuration: (1) the selector walk from 0 following the returned next-selector, which must visit sets 0..n-1 exactly once in order and stop at 0xFF, each response compared byte-for-byte with the literal layout [Success, next, format, id MSB-first, value MSB-first]; (2) every selector < n queried in several random orders, interleaved with other traffic (Set/Get EID, other queries, responses, vendor messages, corrupted packets, decode-only calls, out-of-range selectors) on two interleaved contexts, every Get Vendor Defined Message Support response judged against the model. A sample is logged as JSONL and re-checked in Python. Non-trivial = a configuration whose walk completed; distinct = distinct (configuration, query order) hashes.",
+        rule: "Random valid configurations: every n in 1..=16, every PCI/IANA format mix for n <= 8 (2^n) and random mixes above, random identifier (PCI sets with a non-zero high half) and numeric values, including value-identical (duplicated) sets. For each configuration: (1) the selector walk from 0 following the returned next-selector, which must visit sets 0..n-1 exactly once in order and stop at 0xFF, each response compared byte-for-byte with the literal layout [Success, next, format, id MSB-first, value MSB-first]; (2) every selector < n queried in several random orders, interleaved with other traffic (Set/Get EID, other queries, responses, vendor messages, corrupted packets, decode-only calls, out-of-range selectors) on two interleaved contexts, every Get Vendor Defined Message Support response judged against the model. A sample is logged as JSONL and re-checked in Python. Non-trivial = a configuration whose walk completed; distinct = distinct (configuration, query order) hashes.",
         assumptions: &["selectors >= n are outside this claim (C10 judges that they do not panic)", "valid configurations only: 1-16 sets, format 0 or 1"],
         children: no_children,
     }
@@ -105,6 +105,28 @@ fn gen_cfg(rng: &mut Rng, n: usize, mask: Option<u32>) -> CtxCfg {
             _ => rng.next() as u32,
         };
         vendors.push((fmt, data, rng.next() as u16));
+    }
+    // value-identical sets are legal configurations: duplicate some entries (in particular make
+    // earlier entries equal to the last one, and sometimes all of them equal)
+    if n >= 2 {
+        match rng.below(6) {
+            0 => {
+                let j = rng.below(n as u64) as usize;
+                let i = rng.below(n as u64) as usize;
+                vendors[i] = vendors[j];
+            }
+            1 => {
+                let i = rng.below(n as u64 - 1) as usize;
+                vendors[i] = vendors[n - 1];
+            }
+            2 if mask.is_none() => {
+                let v = vendors[0];
+                for e in vendors.iter_mut() {
+                    *e = v;
+                }
+            }
+            _ => {}
+        }
     }
     let nt = rng.below(31) as usize;
     CtxCfg { addr: rng.byte() & 0x7F, types: rng.bytes(nt), vendors }
